@@ -313,6 +313,9 @@ def main(rec):
             hk += 1
             lib = libs.build("h%d" % hk, lang, pick, ("c", "fortran", "python"))
             cases.append({"lib": lib, "before": before, "row": {"after": pname, "wraps": ["c", "fortran", "python"], "F_CFI": False}})
+    # overloads / defaulted functions whose fortran_generic entries add C entry points of their own (rank patterns)
+    from . import c08 as c08_
+    cases.append({"lib": c08_.build_lib("hrank", c08_.rank_generic_groups(), "c++", ("c", "fortran")), "row": {"rank_generic_overloads": True, "wraps": ["c", "fortran"], "F_CFI": False}})
     res = pool.run_cases("vf.checks.c05", cases, func="run_generated", timeout=1800)
     for c, rr in zip(cases, res):
         if "stats" not in rr:
